@@ -51,6 +51,7 @@ SCHED = {
     # concurrent clauses of properties whose sequential part is checked by the seq engine
     "C10": dict(kinds=["cursor", "reuse"], classes=["nullvalue", "linearizability", "order", "status"]),
     "C08": dict(kinds=["split", "point"], classes=["structure", "ledger"]),
+    "C13": dict(kinds=["storage"], classes=["storage", "structure", "ledger", "progress"]),
 }
 
 ASSUME_SCHED = [
